@@ -105,8 +105,8 @@ structure StrElem where
   uid : Nat
   deriving Repr, BEq, DecidableEq
 
-/-- `set_compare_charp` -/
-def cmpCharp (a b : StrElem) : Int := Bytes.strcasecmp a.key b.key
+/-- `set_compare_charp`: `strcasecmp` reads each key as a C string (up to its first NUL). -/
+def cmpCharp (a b : StrElem) : Int := Bytes.strcasecmp (Bytes.cstr a.key) (Bytes.cstr b.key)
 
 structure PtrElem where
   key : Nat      -- an address
